@@ -26,7 +26,7 @@ MENUS = {
     "condense_newlines": ["newline", "word", "other"],
     "newlines_to_breaks": ["newline", "word"],
     "condense_number_suffixes": ["number", "word", "space"],
-    "match_quotes": ["quote", "word"],
+    "match_quotes": ["quote", "word", "pbreak"],
     # the whole Document::parse pipeline (all condensing passes in their real order, quote pairing,
     # articles_imply_nouns, dictionary metadata from a stub dictionary that knows no word)
     "parse": ["word", "period", "apostrophe", "space", "newline", "quote", "number"],
@@ -93,6 +93,8 @@ def run(mir_path, pass_name, n, src_dir, extra=2):
             # Number { value, suffix, radix, precision }
             return Enum("Number", TK.index("Number"),
                         [Adt("Number", ["f64-value", Enum("None", 0, []), Int(10, 32), Int(0)])])
+        if which == "pbreak":
+            return Enum("ParagraphBreak", TK.index("ParagraphBreak"), [])
         if which == "other":
             return Enum("Unlintable", TK.index("Unlintable"), [])
         raise Unsupported(which)
@@ -250,6 +252,8 @@ def run(mir_path, pass_name, n, src_dir, extra=2):
                 out.append("'")
             elif k == "space":
                 out.append("\t" * w if am is not None and am[i] == 2 * w else " " * w)
+            elif k == "pbreak":
+                out.append("\n" * max(w, 2))
             elif k == "newline":
                 out.append("\n" * w)
             elif k == "number":
